@@ -7,6 +7,7 @@ insertion-order independence (same call on a re-shuffled construction of the sam
 from __future__ import annotations
 
 import itertools as itt
+import json
 import random
 
 from .. import common as C
@@ -14,7 +15,21 @@ from .. import forms as F
 from .. import gen_graph as G
 
 PROP = "C14"
-RULE = ("three streams, in this order. (1) corpus of past witnesses. (2) STRUCTURED shapes, relabelled at random, embedded in random "
+RULE = ("five streams. (1) corpus of past witnesses. (1a) COUNTERFACTUAL receivers (tags cf_nodes, two_worlds_same_base, "
+        "plain_beside_its_cf, cf_in_argument): a case of stream 2 or 3 (every operation but intervene) re-told over a node table "
+        "in which a random subset of the nodes are CounterfactualVariables `X @ world` (up to four worlds, interventions on "
+        "nodes and on a non-node; two nodes with the same base name in different worlds, `A01 @ -A00` and `A01 @ +A00`, and a "
+        "plain `A01` beside them), built through the constructors that can name such nodes, the constructor check comparing full "
+        "node identity. (1b) the same over the mixed-length / mixed-case name table gen_graph.MIXED_NAMES (tag names=mixed), str "
+        "and Variable arguments of the constructors. "
+        "Everywhere: after every graph-valued operation (and copy() in the eq_* cases) the ALIASING clause (tag alias_checked); "
+        "a node collection handed over as list / tuple / one-shot iterable repeats an element with probability 0.12 (tags "
+        "dup_in_S / dup_in_T); intervene also with interventions on variables that are not nodes, alone or mixed with members, "
+        "and with +X and -X of one variable (tags intervene_foreign, intervene_both_signs); cyclic random graphs get a bidirected "
+        "self-loop / a second directed self-loop with probability 0.08 each (tags bi_self_loop, di_self_loops); chain_* shapes "
+        "(directed chains, caterpillars, joined chains of depth 5-9, up to 15 nodes, shuffled labels and insertion order: tags "
+        "closure_depth, longest_path) for ancestors / descendants / topological_sort / pre / get_nodes_in_directed_paths. "
+        "(2) STRUCTURED shapes, relabelled at random, embedded in random "
         "extra nodes/edges and inserted in several orders (tag `shape`): blanket_* (a child of a query node that is also a "
         "parent of another child / of another query node and has a further parent; shared children; 2-cycles), overlap_* "
         "(multi-node queries with overlapping neighbourhoods, every set-valued operation), order_* (one graph built in "
@@ -30,8 +45,9 @@ RULE = ("three streams, in this order. (1) corpus of past witnesses. (2) STRUCTU
         "(3) random mixed graphs (0-8 nodes; isolated nodes, bidirected-only nodes, parallel directed+bidirected pairs, "
         "cycles for the operations defined on them, random insertion order) x every operation x random node subsets "
         "(empty, all, partial, and non-members). "
-        "quick: 30 000 structured + 40 000 random cases; when graph.py changed since integration the quick run also gets the "
-        "exhaustive slice below (ESCALATED_TIER); thorough: 100 000 structured + 200 000 random cases and "
+        "quick: 5 000 counterfactual + 2 000 mixed-name + 30 000 structured + 34 000 random cases (thorough: 30 000 + 10 000 + "
+        "100 000 + 200 000); when graph.py changed since integration the quick run also gets the "
+        "exhaustive slice below (ESCALATED_TIER); "
         "thorough adds EVERY mixed graph without self-loops on 0..3 labelled nodes (1+1+8+512 graphs) x EVERY operation x "
         "every argument: all subsets S (all pairs S,T for get_nodes_in_directed_paths; every node and one non-node for "
         "get_district; for pre with an explicit order every S x every permutation of the node set and the empty order; "
@@ -42,6 +58,9 @@ RULE = ("three streams, in this order. (1) corpus of past witnesses. (2) STRUCTU
 ASSUMPTIONS = [
     "argument FORMS (harness/forms.py): every call is made with the node set in one of the forms the signature allows, chosen deterministically per case and recorded as tags form_*: `Variable | Iterable[Variable]` parameters (subgraph, remove_*, ancestors/descendants_inclusive, get_markov_blanket, pre; sources/targets of get_nodes_in_directed_paths) as list / tuple / set / frozenset / dict keys / generator / iterator / map / a bare Variable for a one-element set; `Collection` / `set` parameters (get_markov_pillow, intervene) in the re-iterable forms only; an explicit topological order as list or tuple; the default order omitted / None / None by keyword; positional or keyword call; the receiver built through every public constructor (from_edges with lists / tuples / generators / iterators / sets, from_str_edges, from_adj, from_str_adj, from_latent_variable_dag, incremental add_* calls with str or Variable names) -- the constructors that change the insertion order only for the operations whose result does not depend on it. The model takes lists; independence of the form is a runtime clause decided by correspondence + oracle. A constructor that does not build the graph it was asked for is reported by the oracle as well",
     "clause 'the receiver is never modified' is a Python-runtime clause (R): decided by comparing nodes()/edges() of the receiver before and after every call, not by a theorem (the model is pure)",
+    "clause 'returns a NEW graph' is a Python-runtime clause (R) as well: after every graph-valued operation (subgraph, remove_*, intervene, moralize, disorient; copy() in the eq_* cases) the harness checks that the result shares no component graph object with the receiver, then CHANGES the result (a fresh node, a directed and a bidirected edge to an old node, one edge of each kind removed) and requires the receiver's nodes()/edges() unchanged, then changes the receiver the same way and requires the result unchanged; a result that refuses changes (a frozen view) is judged by the second half only",
+    "node identity: the model works on integers; the real graph is built through a per-case injective table int -> node whose nodes are plain Variables (two name tables) or CounterfactualVariables (same base name in several worlds). No operation of the property looks at names or sorts nodes, so the integer model is valid for every such table; that graph.py does not is decided by correspondence + oracle on the relabelled graph (a result node outside the table decodes to an atom no definition expects). intervene and to_latent_variable_dag are not defined on counterfactual graphs and are left out there",
+    "intervene with interventions on variables that are not nodes: definition used by the oracle = every node gets the subscripts, exactly the directed edges into / bidirected edges at an intervened NODE are dropped. The empty set (no CounterfactualVariable without subscripts exists: ValueError unless the graph is empty) is compared with the model only; for +X together with -X of one variable the edges are judged (X is intervened whatever the sign), the subscripts of the nodes of such a contradictory world are not",
     "topological_sort / pre with the default order: the theorems say the result is a linear extension (resp. its prefix before the first member of S) for every insertion order, and that success does not depend on the insertion order; equality of the exact order with networkx is correspondence only",
     "intervene: node relabelling is modelled as a map f (injective for the edge characterisations); the harness decodes CounterfactualVariable nodes back to base names and checks their subscripts separately",
     "get_nodes_in_directed_paths: the definition proved and checked is 'nodes on simple directed paths with at least one edge from S to T' (nodesInDirectedPaths_spec, both implementations, after fix 2ae6e11). Arguments that are not nodes are outside the property's quantifier; what the code does with them (ignored on acyclic graphs, NodeNotFound on cyclic ones when both sets are non-empty) is stated by nodesInDirectedPaths_dag_spec / nodesInDirectedPaths_cyclic_error and compared by correspondence only",
@@ -49,8 +68,10 @@ ASSUMPTIONS = [
 ]
 EXHAUSTIVE = {"quick": False, "thorough": True}
 ESCALATED_TIER = "escalated"   # quick tier when graph.py changed since integration: quick stream + the exhaustive slice
-QUICK_RANDOM = 40000
+QUICK_RANDOM = 34000
 QUICK_STRUCTURED = 30000
+QUICK_CF = 5000
+QUICK_NAMES = 2000
 LEANCHECK_MODULES = ["Y0.Model.Graph", "Y0.Props.C14"]
 
 OPS_SET = ["subgraph", "remove_in_edges", "remove_out_edges", "remove_nodes_from", "intervene",
@@ -77,6 +98,31 @@ CORPUS = [
     # seeded change C14a (a child already in the blanket was skipped): N=0, C1=1, C2=2, W=3
     {"op": "get_markov_blanket", "g": {"nodes": [], "di": [[0, 1], [0, 2], [2, 1], [3, 2]], "bi": []}, "S": [0]},
     {"op": "get_markov_blanket", "g": {"nodes": [4, 6, 5, 3], "di": [[6, 3], [3, 4], [5, 3]], "bi": []}, "S": [6, 4]},
+    # G14-1: two worlds of one base name (A01 @ -A00, A01 @ +A00) and the plain A01 beside them; an edge-less counterfactual node
+    {"op": "subgraph", "g": {"nodes": [2], "di": [[0, 1], [1, 4]], "bi": [[1, 3]]}, "S": [1, 3, 4],
+     "cf": {"1": {"iv": [[0, False]]}, "3": {"iv": [[0, True]], "base": 1}, "4": {"iv": [], "base": 1}}},
+    {"op": "remove_nodes_from", "g": {"nodes": [1, 2], "di": [], "bi": []}, "S": [2], "cf": {"1": {"iv": [[0, False]]}}},
+    {"op": "ancestors_inclusive", "g": {"nodes": [], "di": [[0, 1], [1, 2]], "bi": [[1, 3]]}, "S": [2],
+     "cf": {"1": {"iv": [[0, False]]}, "2": {"iv": [[0, False]]}, "3": {"iv": [[0, True]], "base": 1}}},
+    {"op": "districts", "g": {"nodes": [4], "di": [[0, 1]], "bi": [[1, 3], [3, 2]]},
+     "cf": {"1": {"iv": [[0, False]]}, "3": {"iv": [[0, True]], "base": 1}, "2": {"iv": [[90, True]]}}},
+    # G14-2: a result that shares structure with the receiver is only seen when one of the two is changed afterwards
+    {"op": "moralize", "g": {"nodes": [3], "di": [[0, 2], [1, 2]], "bi": [[0, 3]]}},
+    {"op": "remove_out_edges", "g": {"nodes": [], "di": [[0, 1], [1, 2]], "bi": [[0, 2]]}, "S": [1]},
+    # G14-3: a node named twice in the collection
+    {"op": "get_markov_pillow", "g": {"nodes": [], "di": [[0, 1], [2, 1], [3, 2]], "bi": []}, "S": [1, 1, 2], "forms": {"S": "list"}},
+    {"op": "subgraph", "g": {"nodes": [3], "di": [[0, 1], [1, 2]], "bi": [[0, 2]]}, "S": [0, 2, 0], "forms": {"S": "tuple"}},
+    {"op": "nodes_in_directed_paths", "g": {"nodes": [], "di": [[0, 1], [1, 2]], "bi": []}, "S": [0, 0], "T": [2, 2],
+     "forms": {"S": "iterator", "T": "list"}},
+    # G14-4: interventions on variables that are not nodes; both signs of one variable (correspondence only)
+    {"op": "intervene", "g": {"nodes": [2], "di": [[0, 1]], "bi": [[0, 1]]}, "S": [90], "stars": [False]},
+    {"op": "intervene", "g": {"nodes": [2], "di": [[0, 1]], "bi": [[0, 1]]}, "S": [1, 90], "stars": [True, False]},
+    {"op": "intervene", "g": {"nodes": [], "di": [[0, 1], [1, 2]], "bi": [[0, 2]]}, "S": [1, 1], "stars": [True, False]},
+    # G14-5 / G14-6: a chain of depth 7 in shuffled labels; a bidirected self-loop
+    {"op": "ancestors_inclusive", "g": {"nodes": [], "di": [[5, 2], [3, 6], [0, 4], [2, 7], [4, 3], [7, 1], [6, 5]], "bi": []}, "S": [1]},
+    {"op": "subgraph", "g": {"nodes": [], "di": [[0, 1], [1, 0]], "bi": [[1, 1], [0, 2]]}, "S": [1, 2]},
+    # names of mixed length / case (M, Ma <-> zz, X; M0 edge-less)
+    {"op": "remove_in_edges", "g": {"nodes": [13], "di": [[11, 12], [12, 14]], "bi": [[12, 30]]}, "S": [12], "names": "mixed"},
 ]
 
 
@@ -459,7 +505,7 @@ def _shape_eq(rng):
 
 
 STRUCTURED = [(_shape_blanket, 5), (_shape_overlap, 4), (_shape_order, 3), (_shape_pre, 3), (_shape_paths, 4),
-              (_shape_district, 1), (_shape_eq, 2)]
+              (_shape_district, 1), (_shape_eq, 2), (lambda rng: _shape_chain(rng), 2)]
 
 
 def _random_case(rng):
@@ -478,11 +524,145 @@ def _random_case(rng):
         rng.shuffle(o)
         c["order"] = o if rng.random() < 0.9 else []
     if op == "intervene":
-        c["S"] = [v for v in c["S"] if v in nodes]
+        # interventions need not name nodes (`variables: set[Intervention]`): members, foreign names, both mixed
+        r = rng.random()
+        if r < 0.7:
+            c["S"] = [v for v in c["S"] if v in nodes]
+        elif r < 0.8:
+            c["S"] = [v for v in c["S"] if v not in nodes] or [rng.choice(FOREIGN)]
+        elif 90 not in c["S"] and 91 not in c["S"]:
+            c["S"] = c["S"] + [rng.choice(FOREIGN)]
+            rng.shuffle(c["S"])
         c["stars"] = [rng.random() < 0.5 for _ in c["S"]]
+        if c["S"] and rng.random() < 0.2:      # +X and -X of one variable
+            k = rng.randrange(len(c["S"]))
+            c["S"].append(c["S"][k])
+            c["stars"].append(not c["stars"][k])
     if op == "get_district":
         c["v"] = rng.choice(nodes) if nodes and rng.random() < 0.9 else 90
+    if not acyclic and nodes and op != "eq":
+        # bidirected self-loops (legal for add_undirected_edge / nx.Graph), a second directed self-loop
+        if rng.random() < 0.08:
+            g["bi"].insert(rng.randrange(len(g["bi"]) + 1), [rng.choice(nodes)] * 2)
+        if rng.random() < 0.08:
+            for v in rng.sample(nodes, min(2, len(nodes))):
+                if [v, v] not in g["di"]:
+                    g["di"].insert(rng.randrange(len(g["di"]) + 1), [v, v])
     c["shape"] = "random"
+    return c
+
+
+def _shape_chain(rng):
+    """long directed chains / trees (depth 5-9), labels and insertion order shuffled: closures, topological order, paths"""
+    op = rng.choice(["ancestors_inclusive", "descendants_inclusive", "topological_sort", "pre", "pre_order",
+                     "nodes_in_directed_paths", "ancestors_inclusive", "descendants_inclusive"])
+    depth = rng.randint(5, 9)
+    k = depth + 1
+    di = [(i, i + 1) for i in range(depth)]
+    v = rng.choice(["chain", "chain", "chain_with_shortcuts", "caterpillar", "two_chains_joined"])
+    if v == "chain_with_shortcuts":
+        di += [(i, j) for i in range(k) for j in range(i + 2, k) if rng.random() < 0.15]
+    elif v == "caterpillar":          # every spine node gets a leaf child or a leaf parent
+        for i in range(depth):
+            if rng.random() < 0.5 and k < 14:
+                di.append((i, k) if rng.random() < 0.5 else (k, i))
+                k += 1
+    elif v == "two_chains_joined":    # a second chain that enters the first one in the middle
+        m = rng.randint(2, 4)
+        di += [(k + i, k + i + 1) for i in range(m - 1)] + [(k + m - 1, rng.randrange(1, depth))]
+        k += m
+    rng.shuffle(di) if rng.random() < 0.5 else (di.reverse() if rng.random() < 0.5 else None)
+    g, lab = _embed(rng, k, di, bi=_sub(rng, [(0, depth), (1, 3)], 0.3), acyclic=True, keep_order=rng.random() < 0.5,
+                    extra=rng.choice([0, 0, 1, 2]), pd=0.08, pb=0.08)
+    ends = [lab[0], lab[depth]]
+    c = {"op": op, "g": g, "shape": "chain_" + v}
+    if op == "ancestors_inclusive":
+        c["S"] = [lab[depth]] if rng.random() < 0.6 else [lab[rng.randrange(depth // 2, k)], lab[depth]]
+    elif op == "descendants_inclusive":
+        c["S"] = [lab[0]] if rng.random() < 0.6 else [lab[0], lab[rng.randrange(0, depth // 2 + 1)]]
+    elif op in ("pre", "pre_order"):
+        c["S"] = [lab[rng.randrange(depth - 1, depth + 1)]] if rng.random() < 0.7 else []
+        if op == "pre_order":
+            c["order"] = _linear_extension(rng, g) if rng.random() < 0.8 else []
+    elif op == "nodes_in_directed_paths":
+        c["S"], c["T"] = ([ends[0]], [ends[1]]) if rng.random() < 0.7 else ([ends[0], lab[1]], [lab[depth - 1], ends[1]])
+    if "S" in c:
+        c["S"] = list(dict.fromkeys(c["S"]))
+    return c
+
+
+# ---------------------------------------------------------------------------------- other node tables (G14-1, names)
+
+def _draw_base(rng):
+    """a case of the structured or the random stream, for the streams that re-tell it over another node table"""
+    gens = [f for f, w in STRUCTURED for _ in range(w)]
+    return rng.choice(gens)(rng) if rng.random() < 0.5 else _random_case(rng)
+
+
+def _ints_of(c):
+    out = set()
+    for key in ("g", "h"):
+        if key in c:
+            out.update(G.all_nodes(c[key]))
+    return sorted(out)
+
+
+def _cf_case(rng):
+    """a case whose receiver has COUNTERFACTUAL nodes (what id_star / idc_star / cg.py hand to subgraph, districts,
+    ancestors_inclusive ...): a random subset of the nodes becomes `X @ world` for one of up to three worlds; two nodes
+    may share a base name in different worlds (`A01 @ -A00`, `A01 @ +A00`), a plain variable of that name beside them.
+    intervene is left out: it is not defined on such graphs (TypeError / extends the subscripts)."""
+    while True:
+        c = _draw_base(rng)
+        nodes = _ints_of(c)
+        if c["op"] != "intervene" and nodes:
+            break
+    pool = nodes + [90]
+    j, k = rng.choice(pool), rng.choice(pool)
+    worlds = [[[j, False]], [[j, True]]] + ([[[j, False], [k, True]]] if k != j else []) + [[[k, rng.random() < 0.5]]]
+    p = rng.choice([0.3, 0.6, 1.0])
+    cf = {}
+    for i in nodes:
+        if rng.random() < p:
+            cf[str(i)] = {"iv": rng.choice(worlds)}
+    if not cf:
+        cf[str(rng.choice(nodes))] = {"iv": worlds[0]}
+    if len(nodes) >= 2 and rng.random() < 0.6:
+        # the same base name in two worlds (and, sometimes, as a plain variable too)
+        a, b = rng.sample(nodes, 2)
+        cf[str(a)] = {"iv": worlds[0]}
+        cf[str(b)] = {"iv": worlds[1], "base": a}
+        rest = [x for x in nodes if x not in (a, b)]
+        if rest and rng.random() < 0.5:
+            cf[str(rng.choice(rest))] = {"iv": [], "base": a}
+    c["cf"] = cf
+    c["shape"] = "cf_" + c.get("shape", "random")
+    return c
+
+
+def _mixed_names_case(rng):
+    """the same streams over the name table gen_graph.MIXED_NAMES (one-letter names beside `X10`, `X_1`, `aB`): the graph's
+    integers are spread over the table by a random increasing map"""
+    while True:
+        c = _draw_base(rng)
+        nodes = _ints_of(c)
+        if len(nodes) <= len(G.MIXED_NAMES):
+            break
+    tgt = sorted(rng.sample(range(len(G.MIXED_NAMES)), len(nodes)))
+    m = dict(zip(nodes, tgt))
+    f = lambda x: m.get(x, x)  # noqa: E731   (90 / 91 stay the non-members)
+    for key in ("g", "h"):
+        if key in c:
+            x = c[key]
+            c[key] = {"nodes": [f(v) for v in x["nodes"]], "di": [[f(a), f(b)] for a, b in x["di"]],
+                      "bi": [[f(a), f(b)] for a, b in x["bi"]]}
+    for key in ("S", "T", "order"):
+        if key in c:
+            c[key] = [f(v) for v in c[key]]
+    if "v" in c:
+        c["v"] = f(c["v"])
+    c["names"] = "mixed"
+    c["shape"] = "names_" + c.get("shape", "random")
     return c
 
 
@@ -525,10 +705,11 @@ KW = {"subgraph": "vertices", "remove_in_edges": "vertices", "remove_out_edges":
 def _slots(case):
     """the argument forms that are legal for this case (read off the signatures in graph.py)"""
     op = case["op"]
+    same, anyo = (CF_CTORS_SAME_ORDER, CF_CTORS) if case.get("cf") else (F.CTORS_SAME_ORDER, F.CTORS)
     if op == "eq":
-        return {"ctor": F.CTORS, "ctor_h": F.CTORS}
+        return {"ctor": anyo, "ctor_h": anyo}
     order_matters = op in ORDER_FREE or (op == "pre_order" and not case.get("order"))
-    sl = {"ctor": F.CTORS_SAME_ORDER if order_matters else F.CTORS, "call": ("positional", "keyword")}
+    sl = {"ctor": same if order_matters else anyo, "call": ("positional", "keyword")}
     if op in ITER_OPS:
         sl["S"] = F.CONTAINERS + (F.SINGLE, F.SINGLE)       # Variable | Iterable[Variable]
     elif op in ("get_markov_pillow", "intervene"):
@@ -546,14 +727,45 @@ def _forms(case):
     return F.forms_of(case, _slots(case))
 
 
+DUP_FORMS = ("list", "tuple") + F.ONE_SHOT
+
+
+def _assign(c):
+    """derive the forms of a case; forms a corpus witness was written with (and that are legal) are kept"""
+    rec = dict(c.get("forms") or {})
+    sl = _slots(c)
+    F.assign(c, sl)
+    c["forms"].update({k: v for k, v in rec.items() if k in sl and v in sl[k]})
+    return c
+
+
 def cases(rng: random.Random, tier: str):
-    return [F.assign(c, _slots(c)) for c in _cases(rng, tier)]
+    out = [_assign(c) for c in _cases(rng, tier)]
+    # G14-3: a node collection may name an element twice.  Decided AFTER the forms are fixed (they stay as recorded), for
+    # the forms that hand a repetition over (list / tuple / generator / iterator / map)
+    rng2 = random.Random(rng.randrange(1 << 30))
+    for c in out:
+        if c.get("shape") in ("corpus", "exhaustive3") or c["op"] in ("intervene", "eq"):
+            continue
+        for k in ("S", "T"):
+            if c.get(k) and c["forms"].get(k) in DUP_FORMS and rng2.random() < 0.12:
+                xs = list(c[k])
+                for _ in range(rng2.choice([1, 1, 2])):
+                    xs.insert(rng2.randrange(len(xs) + 1), rng2.choice(c[k]))
+                c[k] = xs
+    return out
 
 
 def _cases(rng: random.Random, tier: str):
-    out = [dict(c, shape="corpus") for c in CORPUS]
+    out = [dict(json.loads(json.dumps(c)), shape="corpus") for c in CORPUS]
     n_struct, n_rand = {"thorough": (100000, 200000), "escalated": (QUICK_STRUCTURED, QUICK_RANDOM // 4)}.get(
         tier, (QUICK_STRUCTURED, QUICK_RANDOM))
+    n_cf, n_names = {"thorough": (30000, 10000)}.get(tier, (QUICK_CF, QUICK_NAMES))
+    for gen, n in ((_cf_case, n_cf), (_mixed_names_case, n_names)):
+        for _ in range(n):
+            c = gen(rng)
+            c["shuffle_seed"] = rng.randrange(1 << 30)
+            out.append(c)
     gens = [f for f, w in STRUCTURED for _ in range(w)]
     for _ in range(n_struct):
         c = rng.choice(gens)(rng)
@@ -568,9 +780,163 @@ def _cases(rng: random.Random, tier: str):
     return out
 
 
+# ------------------------------------------------------------------------------------------ node codec
+#
+# Cases live in integer space (that is what the model and the oracle see).  The REAL graph is built through a per-case,
+# injective table int -> node:
+#   * case["names"] == "mixed": the order-preserving table gen_graph.MIXED_NAMES (names of mixed length / case) instead of
+#     A00..A99; integers beyond it (the non-member arguments 90, 91) become zzz90, zzz91;
+#   * case["cf"] = {str(i): {"iv": [[j, star], ...], "base": k}}: node i is the CounterfactualVariable
+#     `Variable(name(k or i)) @ {Intervention(name(j), star), ...}`; `"iv": []` with a base is the plain Variable of
+#     another node's name.  So `A01 @ -A00`, `A01 @ +A00` and the plain `A01` can be three different nodes of one graph.
+# Results are decoded through the inverse table; a node the table does not know (e.g. a counterfactual node that some
+# operation normalised to its base variable) decodes to a `?repr` atom, which no definition ever expects.
+
+FOREIGN = (90, 91)
+
+
+def _name_fn(case):
+    if case.get("names") == "mixed":
+        return lambda i: G.MIXED_NAMES[i] if i < len(G.MIXED_NAMES) else f"zzz{i}"
+    return G.vname
+
+
+class Codec:
+    def __init__(self, case):
+        from y0.dsl import CounterfactualVariable, Intervention, Variable
+
+        self.name = _name_fn(case)
+        self.cf = case.get("cf") or {}
+        self.plain = not self.cf
+        ints = set(FOREIGN)
+        for key in ("g", "h"):
+            if key in case:
+                ints.update(G.all_nodes(case[key]))
+        for key in ("S", "T", "order"):
+            ints.update(case.get(key) or [])
+        if "v" in case:
+            ints.add(case["v"])
+        self._enc = {}
+        for i in sorted(ints):
+            spec = self.cf.get(str(i))
+            if spec is None:
+                node = Variable(self.name(i))
+            else:
+                base = self.name(spec.get("base", i))
+                ivs = frozenset(Intervention(name=self.name(j), star=bool(st)) for j, st in spec["iv"])
+                node = CounterfactualVariable(name=base, star=None, interventions=ivs) if ivs else Variable(base)
+            self._enc[i] = node
+        self._dec = {v: k for k, v in self._enc.items()}
+        if len(self._dec) != len(self._enc):
+            raise ValueError("node table of the case is not injective")     # a generator bug, never a verdict
+        self._by_name = {}
+        for k, v in self._enc.items():
+            self._by_name.setdefault(v.name, k)
+
+    def enc(self, i):
+        return self._enc[i]
+
+    def dec(self, node):
+        """int of a node of the table; anything else becomes an atom that names the stranger"""
+        try:
+            if node in self._dec and type(node) is type(self._enc[self._dec[node]]):
+                return self._dec[node]
+        except TypeError:
+            pass
+        return "?" + repr(node)
+
+    def dec_base(self, node):
+        """for the nodes `intervene` returns: the int of the base variable (subscripts are checked separately)"""
+        return self._by_name.get(getattr(node, "name", None), "?" + repr(node))
+
+
+# constructors that can take counterfactual nodes (the `str` constructors cannot name them)
+CF_CTORS_SAME_ORDER = ("from_edges", "from_edges_positional_tuples", "from_edges_generators", "incremental", "incremental_str_plain")
+CF_CTORS = CF_CTORS_SAME_ORDER + ("from_edges_sets", "from_adj", "incremental_shuffled")
+
+
+def _build_cf(g, ctor, seed, cd):
+    """NxMixedGraph of the graph dict through the table of the case, for tables with counterfactual nodes"""
+    from y0.dsl import Variable
+    from y0.graph import NxMixedGraph
+
+    V = cd.enc
+    rng = random.Random(F.crc("graph-cf", seed, ctor))
+    nodes, di, bi = list(g["nodes"]), [tuple(e) for e in g["di"]], [tuple(e) for e in g["bi"]]
+    vn = [V(i) for i in nodes]
+    vd = [(V(u), V(v)) for u, v in di]
+    vb = [(V(u), V(v)) for u, v in bi]
+    if ctor == "from_edges":
+        return NxMixedGraph.from_edges(nodes=vn, directed=vd, undirected=vb)
+    if ctor == "from_edges_positional_tuples":
+        return NxMixedGraph.from_edges(tuple(vn), tuple(vd), tuple(vb))
+    if ctor == "from_edges_generators":
+        return NxMixedGraph.from_edges(nodes=(v for v in vn), directed=iter(vd), undirected=map(lambda e: e, vb))
+    if ctor == "from_edges_sets":
+        return NxMixedGraph.from_edges(nodes=frozenset(vn), directed=set(vd), undirected=dict.fromkeys(vb).keys())
+    if ctor in ("incremental", "incremental_str_plain", "incremental_shuffled"):
+        # `str` names where the node is a plain Variable (add_* normalise with Variable.norm), the node itself otherwise
+        def conv(i):
+            n = V(i)
+            if ctor != "incremental" and type(n) is Variable and (ctor == "incremental_str_plain" or rng.random() < 0.5):
+                return n.name
+            return n
+        ops = [("n", i) for i in (G.all_nodes(g) if ctor == "incremental_shuffled" else nodes)] + \
+              [("d", e) for e in di] + [("b", e) for e in bi]
+        if ctor == "incremental_shuffled":
+            rng.shuffle(ops)
+        rv = NxMixedGraph()
+        for kind, x in ops:
+            if kind == "n":
+                rv.add_node(conv(x))
+            elif kind == "d":
+                rv.add_directed_edge(conv(x[0]), conv(x[1]))
+            else:
+                a, b = x if (ctor != "incremental_shuffled" or rng.random() < 0.5) else (x[1], x[0])
+                rv.add_undirected_edge(conv(a), conv(b))
+        return rv
+    if ctor == "from_adj":
+        dadj, badj = {}, {}
+        for u, v in di:
+            dadj.setdefault(V(u), []).append(V(v))
+        for u, v in bi:
+            if rng.random() < 0.5:
+                u, v = v, u
+            badj.setdefault(V(u), []).append(V(v))
+        return NxMixedGraph.from_adj(nodes=[V(i) for i in G.all_nodes(g)], directed=dadj, undirected=badj)
+    raise ValueError(ctor)
+
+
+def _ctor_fault_cf(g, graph, ctor, cd):
+    """as forms.constructor_fault, with FULL node identity (class, name, star, subscripts), not only `.name`"""
+    every = list(graph.directed.nodes()) + list(graph.undirected.nodes())
+    want_n = {cd.enc(i) for i in G.all_nodes(g)}
+    types = {cd.enc(i): type(cd.enc(i)) for i in G.all_nodes(g)}
+    alien = [n for n in every if n not in want_n or type(n) is not types[n]]
+    if alien:
+        return f"constructor {ctor}: node {alien[0]!r} ({type(alien[0]).__name__}) is not a node of the graph that was asked for"
+    got = (set(graph.nodes()), set(graph.directed.edges()), {frozenset(e) for e in graph.undirected.edges()})
+    want = (want_n, {(cd.enc(u), cd.enc(v)) for u, v in g["di"]}, {frozenset((cd.enc(u), cd.enc(v))) for u, v in g["bi"]})
+    if got != want:
+        return f"constructor {ctor} built {got} instead of {want}"
+    if set(graph.directed.nodes()) != set(graph.undirected.nodes()):
+        return f"constructor {ctor}: directed and undirected parts hold different node sets"
+    return None
+
+
+def _build(case, g, ctor, seed, cd):
+    """(graph, None) or (None, why the constructor failed / built another graph)"""
+    try:
+        graph = F.build_graph(g, ctor, seed=seed, name=cd.name) if cd.plain else _build_cf(g, ctor, seed, cd)
+    except Exception as e:  # noqa: BLE001 - every graph dict of this module is a legal input of every constructor
+        return None, f"constructor {ctor} raised {type(e).__name__}: {str(e)[:120]}"
+    fault = F.constructor_fault(g, graph, ctor, name=cd.name) if cd.plain else _ctor_fault_cf(g, graph, ctor, cd)
+    return (None, fault) if fault else (graph, None)
+
+
 # ------------------------------------------------------------------------------------------ real code
 
-def _canon_nxgraph(graph, decode=G.vint):
+def _canon_nxgraph(graph, decode):
     nodes = [str(decode(n)) for n in graph.nodes()]
     di = [[str(decode(u)), str(decode(v))] for u, v in graph.directed.edges()]
     bi = [[str(decode(u)), str(decode(v))] for u, v in graph.undirected.edges()]
@@ -582,22 +948,69 @@ def _snapshot(graph):
             list(graph.undirected.edges()))
 
 
-def _call(case, g):
+def _mutate(x, fresh):
+    """change a returned / a receiver graph in place: a fresh node, a directed and a bidirected edge between it and an old
+    node, one old edge of each kind removed.  `x` is an NxMixedGraph or (disorient) an nx.Graph."""
+    parts = [x.directed, x.undirected] if hasattr(x, "directed") else [x]
+    old = next(iter(parts[0].nodes()), None)
+    for p in parts:
+        e = next(iter(p.edges()), None)
+        if e is not None:
+            p.remove_edge(*e)
+    if hasattr(x, "directed"):
+        x.add_node(fresh)
+        if old is not None:
+            x.add_directed_edge(fresh, old)
+            x.add_undirected_edge(old, fresh)
+    else:
+        x.add_node(fresh)
+        if old is not None:
+            x.add_edge(old, fresh)
+
+
+def _snap_any(x):
+    return _snapshot(x) if hasattr(x, "directed") else (list(x.nodes()), list(x.edges()))
+
+
+def _alias_fault(op, graph, r, before):
+    """'returns a NEW graph' as a runtime clause: the result shares no component graph with the receiver; changing the
+    result afterwards leaves the receiver alone, changing the receiver afterwards leaves the result alone"""
+    from y0.dsl import Variable
+
+    comps = [r.directed, r.undirected] if hasattr(r, "directed") else [r]
+    if r is graph or any(c is graph.directed or c is graph.undirected for c in comps):
+        return f"{op}: the returned graph shares a component graph object with the receiver"
+    fresh1, fresh2 = Variable("zzFreshR"), Variable("zzFreshG")
+    try:
+        _mutate(r, fresh1)
+    except Exception:  # noqa: BLE001 - a result that refuses changes (a frozen view) is judged by the second half only
+        pass
+    if _snapshot(graph) != before:
+        return f"{op}: changing the returned graph changed the receiver (the result is not a new graph)"
+    snap_r = _snap_any(r)
+    _mutate(graph, fresh2)
+    if _snap_any(r) != snap_r:
+        return f"{op}: changing the receiver after the call changed the graph returned earlier (the result is not a new graph)"
+    return None
+
+
+GRAPH_VALUED = ("subgraph", "remove_in_edges", "remove_out_edges", "remove_nodes_from", "intervene", "moralize", "disorient")
+
+
+def _call(case, g, cd=None):
     """run the operation on the real code, every argument in the form recorded for the case; returns canonical output"""
-    import networkx as nx
     from y0.dsl import Intervention
     from y0.graph import get_nodes_in_directed_paths
 
     op = case["op"]
     fm = _forms(case)
-    try:
-        graph = F.build_graph(g, fm["ctor"], seed=case.get("shuffle_seed", 0))
-    except Exception as e:  # noqa: BLE001 - every graph dict of this module is a legal input of every constructor
-        return ["err"], f"constructor {fm['ctor']} raised {type(e).__name__}: {str(e)[:120]}"
-    extra = F.constructor_fault(g, graph, fm["ctor"])
+    cd = cd or Codec(case)
+    graph, extra = _build(case, g, fm["ctor"], case.get("shuffle_seed", 0), cd)
     if extra:
         return ["err"], extra
-    Sl = [G.V(i) for i in case.get("S", [])]
+    dec = cd.dec
+    nset = lambda xs: C.as_set([str(dec(v)) for v in xs])  # noqa: E731
+    Sl = [cd.enc(i) for i in case.get("S", [])]
     S = set(Sl)                                   # for the harness' own use; the call gets a fresh container
     kw = fm["call"] == "keyword"
     A = None
@@ -608,34 +1021,37 @@ def _call(case, g):
     arg = lambda: A                               # noqa: E731  (each call path hands the container over exactly once)
     arg_before = F.snapshot(A)
     before = _snapshot(graph)
+    r = None
     try:
         if op in ("subgraph", "remove_in_edges", "remove_out_edges", "remove_nodes_from"):
             r = getattr(graph, op)(**{KW[op]: arg()}) if kw else getattr(graph, op)(arg())
-            out = ["ok", _canon_nxgraph(r)]
+            out = ["ok", _canon_nxgraph(r, dec)]
         elif op == "intervene":
-            ivl = [Intervention(name=G.vname(i), star=st) for i, st in zip(case["S"], case["stars"])]
+            ivl = [Intervention(name=cd.name(i), star=st) for i, st in zip(case["S"], case["stars"])]
             ivs = set(ivl)
             r = graph.intervene(variables=F.container(ivl, fm["S"])) if kw else graph.intervene(F.container(ivl, fm["S"]))
             bad = [n for n in r.nodes() if getattr(n, "interventions", None) != frozenset(ivs) and ivs]
-            extra = extra or ("intervene: node without the requested subscripts" if bad else None)
-            out = ["ok", _canon_nxgraph(r)]
+            if bad and not _both_signs(case):
+                extra = "intervene: node without the requested subscripts"
+            out = ["ok", _canon_nxgraph(r, cd.dec_base)]
         elif op in ("ancestors_inclusive", "descendants_inclusive", "get_markov_blanket"):
             r = getattr(graph, op)(**{KW[op]: arg()}) if kw else getattr(graph, op)(arg())
-            out = ["ok", C.as_set([str(G.vint(v)) for v in r])]
+            out = ["ok", nset(r)]
         elif op == "get_markov_pillow":
             r = graph.get_markov_pillow(nodes=A) if kw else graph.get_markov_pillow(A)
-            out = ["ok", C.as_set([str(G.vint(v)) for v in r])]
+            out = ["ok", nset(r)]
         elif op == "districts":
             ds = graph.districts()
-            out = ["ok", C.as_set([C.as_set([str(G.vint(v)) for v in d]) for d in ds])]
+            out = ["ok", C.as_set([nset(d) for d in ds])]
         elif op == "moralize":
-            out = ["ok", _canon_nxgraph(graph.moralize())]
+            r = graph.moralize()
+            out = ["ok", _canon_nxgraph(r, dec)]
         elif op == "disorient":
             r = graph.disorient()
-            out = ["ok", C.canon_graph(["graph", [str(G.vint(n)) for n in r.nodes()], [],
-                                        [[str(G.vint(u)), str(G.vint(v))] for u, v in r.edges()]])]
+            out = ["ok", C.canon_graph(["graph", [str(dec(n)) for n in r.nodes()], [],
+                                        [[str(dec(u)), str(dec(v))] for u, v in r.edges()]])]
         elif op == "topological_sort":
-            out = ["ok", [str(G.vint(v)) for v in graph.topological_sort()]]
+            out = ["ok", [str(dec(v)) for v in graph.topological_sort()]]
         elif op == "pre" or (op == "pre_order" and not case["order"]):
             if op == "pre":
                 d = fm["default_order"]
@@ -648,24 +1064,24 @@ def _call(case, g):
             else:
                 empty = F.container([], fm["order"])
                 r = graph.pre(nodes=arg(), topological_sort_order=empty) if kw else graph.pre(arg(), empty)
-            out = ["ok", [str(G.vint(v)) for v in r]]
+            out = ["ok", [str(dec(v)) for v in r]]
             # pre_spec: the prefix of topological_sort() that stops at the first member of S
             ts = graph.topological_sort()
             want = list(itt.takewhile(lambda x: x not in S, ts))
             if list(r) != want:
                 extra = extra or f"pre: {out[1]} is not the prefix of topological_sort() before the first member of S"
         elif op == "pre_order":
-            order = F.container([G.V(i) for i in case["order"]], fm["order"])
+            order = F.container([cd.enc(i) for i in case["order"]], fm["order"])
             r = graph.pre(nodes=arg(), topological_sort_order=order) if kw else graph.pre(arg(), order)
-            out = ["ok", [str(G.vint(v)) for v in r]]
+            out = ["ok", [str(dec(v)) for v in r]]
         elif op == "get_district":
-            r = graph.get_district(node=G.V(case["v"])) if kw else graph.get_district(G.V(case["v"]))
-            out = ["ok", C.as_set([str(G.vint(v)) for v in r])]
+            r = graph.get_district(node=cd.enc(case["v"])) if kw else graph.get_district(cd.enc(case["v"]))
+            out = ["ok", nset(r)]
         elif op == "nodes_in_directed_paths":
-            Tl = [G.V(i) for i in case["T"]]
+            Tl = [cd.enc(i) for i in case["T"]]
             r = get_nodes_in_directed_paths(graph=graph, sources=arg(), targets=F.varset(Tl, fm["T"])) if kw else \
                 get_nodes_in_directed_paths(graph, arg(), F.varset(Tl, fm["T"]))
-            out = ["ok", C.as_set([str(G.vint(v)) for v in r])]
+            out = ["ok", nset(r)]
         else:
             raise ValueError(op)
     except Exception as e:  # noqa: BLE001
@@ -673,13 +1089,25 @@ def _call(case, g):
         # outcome of the REAL code, never a harness error -- the oracle then says whether the definition allows an error on
         # this input.  No argument form used here is outside the declared types.
         out = ["err"]
+        r = None
         extra_tag = type(e).__name__  # noqa: F841
     after = _snapshot(graph)
     if before != after:
         extra = "receiver modified by the call"
     elif F.snapshot(A) != arg_before:
         extra = "the caller's node collection was modified by the call"
+    elif r is not None and A is not None and r is A:
+        extra = f"{op}: the result IS the caller's collection object"
+    elif extra is None and r is not None and op in GRAPH_VALUED:
+        extra = _alias_fault(op, graph, r, before)       # last: it changes both graphs
     return out, extra
+
+
+def _both_signs(case):
+    seen = {}
+    for i, st in zip(case.get("S", []), case.get("stars", [])):
+        seen.setdefault(i, set()).add(bool(st))
+    return any(len(v) == 2 for v in seen.values())
 
 
 # ------------------------------------------------------------------------------------------ oracle
@@ -712,7 +1140,14 @@ def _expected(case):
             return ["err"]
         nb = lambda v: {w for e in bi if v in e for w in e}  # noqa: E731
         return ["ok", C.as_set([str(v) for v in _closure({case["v"]}, nb)])]
-    if not S <= V or (op == "intervene" and not S):
+    if op == "intervene":
+        # `variables: set[Intervention]` need not be nodes: a foreign intervention relabels every node and removes nothing.
+        # No opinion for the empty set (no counterfactual variable without subscripts exists).  +X together with -X: X is
+        # an intervened node whatever the sign ("with edges into the intervened nodes removed"), so the edges are judged;
+        # which subscripts the nodes of such a contradictory world carry is left to the correspondence
+        if not S:
+            return None
+    elif not S <= V:
         return None  # the property quantifies over node subsets of the graph
     pa = lambda v: {u for (u, w) in di if w == v}  # noqa: E731
     ch = lambda v: {w for (u, w) in di if u == v}  # noqa: E731
@@ -858,7 +1293,45 @@ def _features(case, V, di):
                                "linear_extension" if all(o.index(u) < o.index(w) for (u, w) in di) else "not_topological")
     if op in ("topological_sort", "pre"):
         f["graph_cyclic"] = _is_cyclic(V, di)
+    if op in ("ancestors_inclusive", "descendants_inclusive") and S:
+        step = pa if op == "ancestors_inclusive" else ch
+        seen, level, depth = set(S), set(S), 0
+        while True:
+            level = set().union(*[step(v) for v in level]) - seen
+            if not level:
+                break
+            seen |= level
+            depth += 1
+        f["closure_depth"] = min(depth, 7)
+    if op in ("topological_sort", "pre", "pre_order", "nodes_in_directed_paths") and not _is_cyclic(V, di):
+        # longest directed path (edges) of the acyclic graph
+        memo = {}
+
+        def lp(v):
+            if v not in memo:
+                memo[v] = 1 + max((lp(w) for w in ch(v)), default=-1)
+            return memo[v]
+        f["longest_path"] = min(max((lp(v) for v in V), default=0), 7)
     return f
+
+
+def _table_tags(case, cd):
+    """what the node table of the case looks like (G14-1: receivers whose nodes are not plain Variables)"""
+    from y0.dsl import CounterfactualVariable
+
+    t = {"names": case.get("names") or "plain"}
+    nodes = [cd.enc(i) for k in ("g", "h") if k in case for i in G.all_nodes(case[k])]
+    ncf = sum(1 for n in set(nodes) if isinstance(n, CounterfactualVariable))
+    t["cf_nodes"] = min(ncf, 4)
+    if ncf:
+        by = {}
+        for n in set(nodes):
+            by.setdefault(n.name, []).append(n)
+        t["two_worlds_same_base"] = any(sum(isinstance(n, CounterfactualVariable) for n in v) >= 2 for v in by.values())
+        t["plain_beside_its_cf"] = any(len(v) >= 2 and any(not isinstance(n, CounterfactualVariable) for n in v) for v in by.values())
+        args = [cd.enc(i) for k in ("S", "T") for i in case.get(k) or []] + ([cd.enc(case["v"])] if "v" in case else [])
+        t["cf_in_argument"] = any(isinstance(n, CounterfactualVariable) for n in args)
+    return t
 
 
 def _graph_key(g):
@@ -874,12 +1347,11 @@ def _run_eq(case):
     tags.update(F.tags(fm))
     want = _graph_key(g) == _graph_key(h)
     tags["equal"] = want
-    try:
-        A = F.build_graph(g, fm["ctor"], seed=case.get("shuffle_seed", 0))
-        B = F.build_graph(h, fm["ctor_h"], seed=case.get("shuffle_seed", 0) + 1)
-    except Exception as e:  # noqa: BLE001
-        return {"out": ["err"], "fail": f"constructor raised {type(e).__name__}: {str(e)[:120]}", "nontrivial": False, "tags": tags}
-    fault = F.constructor_fault(g, A, fm["ctor"]) or F.constructor_fault(h, B, fm["ctor_h"])
+    cd = Codec(case)
+    tags.update(_table_tags(case, cd))
+    A, fault = _build(case, g, fm["ctor"], case.get("shuffle_seed", 0), cd)
+    if fault is None:
+        B, fault = _build(case, h, fm["ctor_h"], case.get("shuffle_seed", 0) + 1, cd)
     if fault:
         return {"out": ["err"], "fail": fault, "nontrivial": False, "tags": tags}
     before = (_snapshot(A), _snapshot(B))
@@ -900,6 +1372,12 @@ def _run_eq(case):
         fail = "a graph does not compare equal to itself / its copy()"
     elif (_snapshot(A), _snapshot(B)) != before:
         fail = "receiver modified by the call"
+    else:
+        try:
+            fail = _alias_fault("copy", A, A.copy(), before[0])
+            tags["alias_checked"] = True
+        except Exception as e:  # noqa: BLE001
+            fail = f"copy() raised {type(e).__name__}: {str(e)[:120]}"
     V = G.all_nodes(g)
     return {"out": out, "fail": fail, "nontrivial": len(V) >= 3 and bool(g["di"] or g["bi"]), "tags": tags}
 
@@ -908,12 +1386,13 @@ def run_python(case):
     if case["op"] == "eq":
         return _run_eq(case)
     g = case["g"]
-    out, extra = _call(case, g)
+    cd = Codec(case)
+    out, extra = _call(case, g, cd)
     fail = extra or _oracle(case, out)
     order_free = case["op"] in ORDER_FREE or (case["op"] == "pre_order" and not case["order"])
     if fail is None:
         g2 = G.shuffled(random.Random(case.get("shuffle_seed", 0)), g)
-        out2, extra2 = _call(case, g2)
+        out2, extra2 = _call(case, g2, cd)
         if order_free:
             # the exact list may differ; it must still satisfy the same specification on the re-inserted graph
             fail = extra2 or _oracle(dict(case, g=g2), out2)
@@ -930,11 +1409,23 @@ def run_python(case):
             "arg_outside_graph": bool(S) and not set(S) <= set(V),
             "insertion_order_not_sorted": g["nodes"] != sorted(V) or g["di"] != sorted(g["di"])}
     tags.update(_features(case, set(V), {tuple(e) for e in g["di"]}))
+    tags.update(_table_tags(case, cd))
     fm = _forms(case)
     for k in ("S", "T"):
         if k in fm and k in case:
             fm[k] = F.effective(case[k], fm[k])
     tags.update(F.tags(fm))
+    if case["op"] in GRAPH_VALUED and out[0] == "ok":
+        tags["alias_checked"] = True
+    for k in ("S", "T"):
+        if k in case and case["op"] != "intervene" and len(set(case[k])) != len(case[k]):
+            # a repeated element reaches the code only in the forms that keep repetitions
+            tags["dup_in_" + k] = "handed_over" if fm.get(k) in ("list", "tuple") + F.ONE_SHOT else "lost_in_set_form"
+    if case["op"] == "intervene":
+        tags["intervene_foreign"] = ("none" if set(S) <= set(V) else "only_foreign" if not set(S) & set(V) else "mixed_with_members")
+        tags["intervene_both_signs"] = _both_signs(case)
+    tags["bi_self_loop"] = any(e[0] == e[1] for e in g["bi"])
+    tags["di_self_loops"] = min(2, sum(1 for e in g["di"] if e[0] == e[1]))
     return {"out": out, "fail": fail, "nontrivial": nontrivial, "tags": tags}
 
 
@@ -993,7 +1484,7 @@ def shrink(case):
         c["g"] = g
         live = set(G.all_nodes(g))
         if "S" in c and c["op"] == "intervene":
-            keep = [i for i, v in enumerate(c["S"]) if v in live]
+            keep = [i for i, v in enumerate(c["S"]) if v in live or v >= 90]
             c["S"] = [c["S"][i] for i in keep]
             c["stars"] = [c["stars"][i] for i in keep]
         if "order" in c:
@@ -1002,16 +1493,24 @@ def shrink(case):
             continue
         yield c
     for key in ("S", "T"):
-        if key in case and case["op"] != "intervene":
+        if key in case:
             for k in range(len(case[key])):
                 c = dict(case)
                 c[key] = case[key][:k] + case[key][k + 1:]
+                if case["op"] == "intervene":
+                    c["stars"] = case["stars"][:k] + case["stars"][k + 1:]
                 yield c
+    if case.get("cf"):
+        # fewer counterfactual nodes (a table that is no longer injective is rejected by the codec, so the candidate fails)
+        for key in case["cf"]:
+            yield dict(case, cf={k: v for k, v in case["cf"].items() if k != key})
+    if case.get("names"):
+        yield {k: v for k, v in case.items() if k != "names"}
 
 
 def finding_key(case, res):
     import json
-    c = {k: case[k] for k in ("op", "g", "h", "S", "T", "order", "v") if k in case}
+    c = {k: case[k] for k in ("op", "g", "h", "S", "T", "order", "v", "cf", "names", "stars") if k in case and (k != "stars" or _both_signs(case))}
     return json.dumps(c, sort_keys=True)
 
 
@@ -1026,11 +1525,12 @@ MANIFEST = {
              "under parents; get_nodes_in_directed_paths = nodes on simple directed paths from S to T in both implementations "
              "(transitive closure on DAGs, DFS enumeration with fuel on cyclic graphs); and insertion-order independence of "
              "every operation (congruence under NxMixedGraph.__eq__; for topological_sort: valid for every insertion order). "
-             "The model is tied to graph.py by the correspondence check on every run (100 000 cases quick; thorough adds every "
+             "The model is tied to graph.py by the correspondence check on every run (71 000 cases quick, receivers with counterfactual "
+             "nodes and two name tables included; thorough adds every "
              "mixed graph on <= 3 labelled nodes x every operation x every argument)."),
     "note": ("Trusted: Lean kernel; axioms propext/Classical.choice/Quot.sound; the hand-written model of graph.py and "
              "networkx (insertion-ordered dict semantics, nx.ancestors / all_simple_paths error behaviour, "
-             "topological_generations) tied to the code by sampling; 'receiver unchanged' is a runtime clause checked by the "
-             "harness on every call, not a theorem."),
+             "topological_generations) tied to the code by sampling; 'receiver unchanged' and 'the result is a new graph' (no "
+             "aliasing with the receiver) are runtime clauses checked by the harness on every call, not theorems."),
     "technique": "Lean 4 theorems (induction over from_edges folds, fuel-bounded closure = ReflTransGen, Kahn loop invariant, DFS path enumeration) + differential correspondence with the real NxMixedGraph + set-theoretic oracle",
 }
